@@ -26,3 +26,6 @@ def build(H, tier, seed):
 
 def standins(tier, seed):
     return K.symcoef_jobs('gp', ['gp'], tier, seed)
+
+
+replay = K.replay_operator
